@@ -1,7 +1,8 @@
 import AcraModel.Basic.Bytes
 import AcraModel.Sql.MysqlComment
 import AcraModel.Sql.TokenizerLoop
-/-! Driver ops for C14: ExtractMysqlComment and the SQL tokenizer. -/
+import AcraModel.Censor.NilGuard
+/-! Driver ops for C14: ExtractMysqlComment, the SQL tokenizer, nil operands of the censor's pointer comparators. -/
 namespace Driver.C14
 open AcraModel AcraModel.Sql.Tokenizer
 
@@ -48,6 +49,17 @@ def handle (op : String) (args : List String) : Option String :=
       match lexFrom i (ac == "1") f (initial o b multi) with
       | .ok ts => pure (" ".intercalate (ts.map fun p => renderTok p.1 p.2))
       | .err => pure "err"
+      | .panic => pure "panic"
+  -- censor.nilsites → the call sites of the matcher that can see a nil pointer field: callee:kind:field …
+  | "censor.nilsites", [] =>
+      pure (" ".intercalate (Censor.NilGuard.optionalCalls.map fun c => s!"{c.2.1}:{c.2.2.1}:{c.2.2.2}"))
+  -- censor.nilcmp <callee> <kind> <field> <query operand nil 0|1> <pattern operand nil 0|1> → true | false | panic | other
+  -- (everything else of the two statements is equal, so the body of the comparator says "equal")
+  | "censor.nilcmp", [callee, _, _, qn, pn] =>
+      let opnd (s : String) : Option Unit := if s == "1" then none else some ()
+      match Censor.NilGuard.ptrCompare (Censor.NilGuard.guardsOf callee) (fun _ _ => true) (opnd qn) (opnd pn) with
+      | .ok b => pure (if b then "true" else "false")
+      | .err => pure "other"
       | .panic => pure "panic"
   | _, _ => none
 
